@@ -20,5 +20,6 @@ Definition la_unitarity2_q := @la_unitarity2 Q OpsQ.
 Cd "Extract".
 Extraction "model.ml" peval_q geval_q lp_get_q lp_norm2_q lp_degree_q lp_parity_q lp_dmax_q
   la_degree_q la_norm2_q la_unitarity2_q
-  check_c01 c01_norm check_ipoly ipoly_norm scaleZ.
+  check_c01 c01_norm check_ipoly ipoly_norm scaleZ
+  check_c07 c07_norm check_roundtrip.
 Cd "..".
